@@ -153,6 +153,29 @@ func (r *Slice) GetIndices(length int) (start, stop, step, slicelength int, err 
 	return
 }
 
+// Resolved returns an equivalent slice whose fields are None or Int.
+//
+// Converting the fields can run Python code (__index__) which may
+// resize the sequence being sliced, so a mutable sequence converts
+// them once, here, before it looks at its own length.
+func (r *Slice) Resolved() (*Slice, error) {
+	res := &Slice{Start: None, Stop: None, Step: None}
+	for _, f := range []struct {
+		from Object
+		to   *Object
+	}{{r.Start, &res.Start}, {r.Stop, &res.Stop}, {r.Step, &res.Step}} {
+		if f.from == None {
+			continue
+		}
+		i, err := sliceIndexInt(f.from)
+		if err != nil {
+			return nil, err
+		}
+		*f.to = Int(i)
+	}
+	return res, nil
+}
+
 // As IndexInt, but integers too big for an int are clamped, not rejected
 // (as _PyEval_SliceIndex does): x[:2**100] is the same as x[:]
 func sliceIndexInt(a Object) (int, error) {
